@@ -181,6 +181,11 @@ pub fn emit_maps(name: &str, wasm: &[u8], m: &Module, em: &crate::irdump::EmitMa
     let mut bad = |what: String| out.push(v("index-map-wrong", "C19", format!("{}: {}", name, what), wasm, String::new(), String::new()));
     let wvt = |t: &walrus::ValType| -> wasmparser::ValType { match t { walrus::ValType::I32 => wasmparser::ValType::I32, walrus::ValType::I64 => wasmparser::ValType::I64, walrus::ValType::F32 => wasmparser::ValType::F32, walrus::ValType::F64 => wasmparser::ValType::F64, walrus::ValType::V128 => wasmparser::ValType::V128,
         walrus::ValType::Ref(walrus::RefType::Externref) => wasmparser::ValType::Ref(wasmparser::RefType::EXTERNREF), _ => wasmparser::ValType::Ref(wasmparser::RefType::FUNCREF) } };
+    // imported entities are identified by their import's (module, field): the k-th import of a kind in the emitted binary must be the
+    // one the map sends to index k
+    {   let kth = |kind: u8, k: usize| -> Option<(String, String)> { b.imports.iter().filter(|i| match (&i.2, kind) { (AImportKind::Func(_), 0) | (AImportKind::Table(_), 1) | (AImportKind::Mem(_), 2) | (AImportKind::Global(_), 3) => true, _ => false }).nth(k).map(|i| (i.0.clone(), i.1.clone())) };
+        for im in m.imports.iter() { let (kind, ix) = match im.kind { ImportKind::Function(f) => (0u8, em.funcs.get(&f.index())), ImportKind::Table(t) => (1, em.tables.get(&t.index())), ImportKind::Memory(x) => (2, em.memories.get(&x.index())), ImportKind::Global(g) => (3, em.globals.get(&g.index())) };
+            if let Some(ix) = ix { if kth(kind, *ix as usize) != Some((im.module.clone(), im.name.clone())) { bad(format!("the imported {} {}.{} is given emit-time index {}, but the emitted import section has {:?} there", ["function", "table", "memory", "global"][kind as usize], im.module, im.name, ix, kth(kind, *ix as usize))); } } } }
     // emit-time: what sits at the reported index in the emitted binary
     for f in m.funcs.iter() { if let Some(ix) = em.funcs.get(&f.id().index()) { let t = m.types.get(f.ty()); let got = (t.params().iter().map(wvt).collect::<Vec<_>>(), t.results().iter().map(wvt).collect::<Vec<_>>()); if Some(got) != func_sig(b, *ix) { bad(format!("emit-time index {} of function id {} holds a function with another signature", ix, f.id().index())); }
         let is_imp = matches!(f.kind, FunctionKind::Import(_)); if is_imp != ((*ix as usize) < n_imp(b, 0)) { bad(format!("emit-time index {} of function id {} is on the wrong side of the import boundary", ix, f.id().index())); } } else { bad(format!("function id {} has no emit-time index", f.id().index())); } }
@@ -193,6 +198,27 @@ pub fn emit_maps(name: &str, wasm: &[u8], m: &Module, em: &crate::irdump::EmitMa
         Some((ix, x)) => { let kind_ok = match (&e.kind, &x.kind) { (walrus::ElementKind::Passive, AElemKind::Passive) | (walrus::ElementKind::Declared, AElemKind::Declared) | (walrus::ElementKind::Active { .. }, AElemKind::Active { .. }) => true, _ => false };
             let n_ok = match (&e.items, &x.items) { (walrus::ElementItems::Functions(f), AElemItems::Funcs(g)) => f.len() == g.len() && f.iter().zip(g).all(|(id, j)| em.funcs.get(&id.index()) == Some(j)), (walrus::ElementItems::Expressions(_, f), AElemItems::Exprs(_, g)) => f.len() == g.len(), _ => false };
             if !kind_ok || !n_ok { bad(format!("emit-time index {} of element id {} holds another segment", ix, e.id().index())); } } } }
+}
+
+/// C19, emit-time half after a well-formed edit: one import of each kind is MOVED (its import entry deleted and re-created under another
+/// name, so that the imports arena and the entity arenas no longer list the imported entities in the same order)
+pub fn emit_maps_after_import_move(name: &str, wasm: &[u8], out: &mut Vec<Json>) {
+    let r = catch(|| { let mut m = Module::from_buffer(wasm).ok()?;
+        let mut moved = 0;
+        for kind in 0..4u8 { let ims: Vec<ImportId> = m.imports.iter().filter(|i| matches!((&i.kind, kind), (ImportKind::Function(_), 0) | (ImportKind::Table(_), 1) | (ImportKind::Memory(_), 2) | (ImportKind::Global(_), 3))).map(|i| i.id()).collect();
+            if ims.len() < 2 { continue; }
+            let old = ims[0]; let (md, nm, k) = { let i = m.imports.get(old); (i.module.clone(), i.name.clone(), i.kind.clone()) };
+            m.imports.delete(old);
+            let new = match k { ImportKind::Function(f) => { let n = m.imports.add(&md, &format!("{}_moved", nm), f); if let FunctionKind::Import(i) = &mut m.funcs.get_mut(f).kind { i.import = n; } n }
+                ImportKind::Table(t) => { let n = m.imports.add(&md, &format!("{}_moved", nm), t); m.tables.get_mut(t).import = Some(n); n }
+                ImportKind::Memory(x) => { let n = m.imports.add(&md, &format!("{}_moved", nm), x); m.memories.get_mut(x).import = Some(n); n }
+                ImportKind::Global(g) => { let n = m.imports.add(&md, &format!("{}_moved", nm), g); m.globals.get_mut(g).kind = GlobalKind::Import(n); n } };
+            let _ = new; moved += 1; }
+        if moved == 0 { return None; }
+        Some(crate::body::observe_module(m)) });
+    match r { Some(Some(Ok(oo))) => emit_maps(&format!("{} (after moving an import)", name), wasm, &oo.module, &oo.em, &oo.aout, out),
+        Some(Some(Err(e))) => out.push(v("output-undecodable", "C02 C19", format!("{}: after moving an import the emitted module cannot be decoded: {}", name, e), wasm, String::new(), String::new())),
+        Some(None) => {}, None => out.push(v("walrus-panics-on-valid-module", "C02 C19", format!("{}: moving an import then emitting panics", name), wasm, String::new(), String::new())) }
 }
 
 /// C13: debug names stay attached to the same entities.
@@ -223,6 +249,13 @@ pub fn names(name: &str, wasm: &[u8], obs: &Observed, out: &mut Vec<Json>) {
     chk("global", &na.globals, &nb.globals, &idn, n_imp(a, 3) + a.globals.len(), &mut bad);
     chk("element", &na.elems, &nb.elems, &idn, a.elems.len(), &mut bad);
     chk("data", &na.data, &nb.data, &idn, a.data.len(), &mut bad);
+    // no local name migrates: every name the OUTPUT attaches to a local of function j is a name the input attached to a local of the
+    // corresponding function (same slot for parameters)
+    {   let ni0 = n_imp(a, 0); let total = ni0 + a.funcs.len();
+        for fi in 0..total as u32 { let fo = match rf(fi) { Some(x) => x, None => continue }; let outn = match nb.locals.get(&fo) { Some(x) => x, None => continue };
+            let empty = NM::new(); let inn = na.locals.get(&fi).unwrap_or(&empty); let nparams = func_sig(a, fi).map(|s| s.0.len()).unwrap_or(0) as u32;
+            for (slot, n) in outn { if *slot < nparams { if inn.get(slot) != Some(n) { bad(format!("output function {} (input function {}): parameter {} is named {:?} in the output, {:?} in the input", fo, fi, slot, n, inn.get(slot)), format!("{:?}", n), format!("{:?}", inn.get(slot))); } }
+                else if !inn.values().any(|m| m == n) { bad(format!("output function {} (input function {}): local slot {} carries name {:?} which no local of that function has in the input", fo, fi, slot, n), format!("{:?}", n), String::new()); } } } }
     // locals: parameters keep their index; every emitted (= used or parameter) named local keeps its name.
     // Alignment of non-parameter locals through the operator streams: the k-th local.get/set/tee of the normal form.
     let ni = n_imp(a, 0);
@@ -329,5 +362,5 @@ pub fn all_module_oracles(name: &str, wasm: &[u8], out: &mut Vec<Json>) {
         Some(Err(e)) => if e.starts_with("parse:") { out.push(v("walrus-rejects-valid-module", "C05", format!("{}: {}", name, e), wasm, String::new(), String::new())) } else { out.push(v("output-undecodable", "C02", format!("{}: emitted module cannot be decoded: {}", name, e), wasm, String::new(), String::new())) },
         None => out.push(v("walrus-panics-on-valid-module", "C02 C05", format!("{}: parse or emit panics", name), wasm, String::new(), String::new())),
     }
-    customs(name, wasm, out); determinism(name, wasm, out); config(name, wasm, out); gc(name, wasm, out);
+    customs(name, wasm, out); determinism(name, wasm, out); config(name, wasm, out); gc(name, wasm, out); emit_maps_after_import_move(name, wasm, out);
 }
